@@ -52,6 +52,28 @@ def reduced_menu():
     return ops
 
 
+LADDER = (8, 16, 23, 24, 25, 32, 64, 128, 255, 256, 300)
+
+
+def ladder_histories():
+    """Behaviour must not depend on the data LENGTH: every string method x long strings with a y-diaeresis at the
+    start / middle / end, both modes, exact and padded widths."""
+    out = []
+    for L in LADDER:
+        for s in ("ÿ" + "a" * (L - 1), "a" * (L - 1) + "ÿ", "a" * (L // 2) + "ÿ" + "b" * (L - L // 2 - 1), "Ā" * L):
+            for mode in (0, 1):
+                pre = [("mode", mode)]
+                out.append(pre + [("add_string", s)])
+                out.append(pre + [("add_encoded_string", s)])
+                for m in ("add_fixed_string", "add_fixed_encoded_string"):
+                    out.append(pre + [(m, s, L, 0)])
+                    out.append(pre + [(m, s, L, 1)])
+                    out.append(pre + [(m, s, L + 3, 1)])
+                    out.append(pre + [(m, s, L - 1, 1), ("add_char", 1)])
+                    out.append(pre + [(m, s, L + 1, 0), ("add_char", 1)])
+    return out
+
+
 def call(w, op):
     name = op[0]
     if name in NUM_METHODS:
@@ -178,7 +200,14 @@ def run(tier, seed):
     pre = [(("mode", 1), ("mode", 0)), (("mode", 0), ("mode", 1)), (("mode", 1), ("add_string", "ÿ")), (("add_fixed_string", "ÿ", 2, 1), ("mode", 1))]
     jobs += [([p], "full", 3) for p in pre]
     res = par.pmap(_run_histories, jobs)
-    hist = sum(r[0] for r in res)
+    lad_bad, lad_n = [], 0
+    prod = WriterProduct()
+    for h in ladder_histories():
+        lad_n += 1
+        what = explorer.replay(prod, h)
+        if what and len(lad_bad) < 3:
+            lad_bad.append((h, what))
+    hist = sum(r[0] for r in res) + lad_n
     trans = sum(r[1] for r in res)
     states = sum(r[3] for r in res)
     violations = []
@@ -188,7 +217,10 @@ def run(tier, seed):
             last = h[-1]
             key = f"writer:{last[0]}:{what.split(':')[1][:50] if ':' in what else what[:50]}"
             violations.append({"key": key, "what": f"history {h}: {what}", "case": case, "alt_cases": alts})
+    for h, what in lad_bad:
+        violations.append({"key": f"writer-long:{h[-1][0]}:{what.split(':')[1][:40] if ':' in what else what[:40]}", "what": f"history {[(o[0],) + tuple(len(x) if isinstance(x, str) else x for x in o[1:]) for o in h]} (string lengths shown): {what}", "case": {"history": h}})
     coverage = {
+        "long_string_histories": lad_n,
         "states": states,
         "transitions": trans,
         "traces_validated_against_impl": hist,
@@ -201,7 +233,7 @@ def run(tier, seed):
         "exhaustive": True,
         "rule": "every history of depth_full over the full menu (5 numeric methods x 21 boundary values incl. every type's limit, "
         "12 strings x all string methods x lengths 0..4 x padded, raw bytes, mode toggles), every history of depth_reduced "
-        "over the reduced menu, and the full menu after 4 two-step prefixes; after every step the real writer's "
+        "over the reduced menu, and the full menu after 4 two-step prefixes; plus a length ladder (strings of 8..300 characters with a y-diaeresis at start/middle/end through every string method, both modes, exact/padded/wrong widths); after every step the real writer's "
         "(len, bytes, mode) and accept/ValueError outcome are compared with M4; states = distinct final (buffer, mode) pairs",
         "samples": [{"history": [list(map(_j, o)) for o in h]} for h in ([("mode", 1), ("add_fixed_string", "aÿ", 3, 1)], [("add_three", P4), ("add_char", 252)])],
     }
